@@ -187,7 +187,17 @@ def explore(ctx, scale=1.0):
                 o2 = o2[k]
             simple = [k for k, v in o.items() if not k.startswith("__") and k in o["__position__"] and isinstance(o["__position__"][k], dict)
                       and "line" in o["__position__"][k] and not isinstance(v, (dict, list))]
-            if simple and rng.random() < .6:
+            repeated = [k for k, v in o.items() if isinstance(v, list) and len(v) >= 1 and isinstance(o["__position__"].get(k), list)
+                        and len(o["__position__"][k]) == len(v) and all(isinstance(x, str) for x in v)]
+            if repeated and rng.random() < .5:
+                # a fault in ONE occurrence of a repeated keyword (PROCESSING, FORMATOPTION, …): the message must carry that occurrence's position
+                k = rng.choice(repeated)
+                i = rng.randrange(len(o[k]))
+                o2[k][i] = 5
+                want = (o["__position__"][k][i]["line"], o["__position__"][k][i]["column"])
+                wkey = k.upper()
+                fault = f"bad occurrence {i} of repeated keyword at {'/'.join(map(str, path + (k,)))}"
+            elif simple and rng.random() < .6:
                 k = rng.choice(simple)
                 o2[k] = rng.choice([{"zz": 1}, [1, 2, 3, 4, 5, 6, 7, 8], "zz-not-a-value\n"]) if rng.random() < .7 else None
                 if o2[k] is None:
